@@ -611,7 +611,7 @@ def replay_main(pid, tier, seed, path):
     print("replay verdicts=%s" % d["verdicts"])
     if d["n_violations"]:
         for v in d["violations"][:3]:
-            print("  finding=%s" % jdumps(v.get("finding"))[:1500])
+            print("  key=%s finding=%s" % (v.get("key"), jdumps(v.get("finding"))[:1500]))
         print("VIOLATION property=%s replay=%s" % (pid, path))
         return 1
     print("replay did not violate")
